@@ -403,6 +403,35 @@ def twin_cases():
     return out
 
 
+def optional_field_cases():
+    """an OPTIONAL scalar field that receives, in every order, what a built-in hands back (a wrapped present value, or nil), values
+    computed by the program, and nil - through the object, through an alias, next to a second object"""
+    import itertools
+    G = lambda n, t, e: ("decl", n, t, e, ())
+    last = F(SELF, "last")
+    cls = ("class", "Rd", [("last", ("opt", "int")), ("fed", "int")], [], [("setf", SELF, "last", ("nil",)), ("setf", SELF, "fed", I(0))],
+           [("feed", [("text", "str")], ("cls", "Self"), [("setf", SELF, "last", ("mcall", V("text"), "parse_int", [])), ("setf", SELF, "fed", ("bin", "+", F(SELF, "fed"), I(1))), ("return", SELF)]),
+            ("bump", [], ("cls", "Self"), [("if", ("bin", "!=", last, ("nil",)), [("setf", SELF, "last", ("bin", "+", ("get", last), I(1)))], None), ("return", SELF)]),
+            ("reset", [], ("cls", "Self"), [("setf", SELF, "last", I(0)), ("return", SELF)]),
+            ("clear", [], ("cls", "Self"), [("setf", SELF, "last", ("nil",)), ("return", SELF)]),
+            ("take", [("o", ("cls", "Self"))], ("cls", "Self"), [("setf", SELF, "last", F(V("o"), "last")), ("return", SELF)])])
+    OPS = {"feed-number": lambda o: ("expr", ("mcall", V(o), "feed", [S("41")])), "feed-text": lambda o: ("expr", ("mcall", V(o), "feed", [S("x")])),
+           "bump": lambda o: ("expr", ("mcall", V(o), "bump", [])), "reset": lambda o: ("expr", ("mcall", V(o), "reset", [])), "clear": lambda o: ("expr", ("mcall", V(o), "clear", [])),
+           "take-from-q": lambda o: ("expr", ("mcall", V(o), "take", [V("q")])), "direct-plain": lambda o: ("setf", V(o), "last", I(5)),
+           "direct-builtin": lambda o: ("setf", V(o), "last", ("mcall", S("8"), "parse_int", []))}
+    out = []
+    for seq in itertools.product(sorted(OPS), repeat=3):
+        if len(set(seq)) == 1:
+            continue
+        stmts = [cls, G("p", None, ("new", "Rd", [])), G("q", None, ("new", "Rd", [])), G("r", None, V("p")), ("expr", ("mcall", V("q"), "feed", [S("9")]))]
+        for i, op in enumerate(seq):
+            stmts.append(OPS[op]("r" if i == 1 else "p"))
+            stmts += [("print", ("or", F(V("p"), "last"), I(0 - 1))), ("print", ("or", F(V("r"), "last"), I(0 - 1))), ("print", ("bin", "==", F(V("p"), "last"), ("nil",)))]
+        stmts += [("print", F(V("p"), "fed")), ("print", ("or", F(V("q"), "last"), I(0 - 1))), ("print", ("bin", "is", V("r"), V("p")))]
+        out.append({"stmts": stmts, "labels": ["feat:optional-field-written-with-builtin-results-and-plain-values"], "nt": True, "raw": True})
+    return out
+
+
 def check_twin(case):
     files, exp = twin_program(case)
     out = "\n".join(exp) + "\n"
@@ -518,7 +547,7 @@ def enumerated(tier, seed):
              ("print", ("bin", "is", ("mcall", ("mcall", V("ca"), "twin", []), "bump", [I(1)]), V("ca"))),
              ("print", ("mcall", ("mcall", ("mcall", V("ca"), "bump", [I(1)]), "other", [V("cb")]), "val", [])),
              ("print", F(V("ca"), "v")), ("print", F(V("cb"), "v"))]
-    return twin_cases() + [{"stmts": chain, "labels": ["feat:method-chained-on-returned-object"], "nt": True, "raw": True},
+    return twin_cases() + optional_field_cases() + [{"stmts": chain, "labels": ["feat:method-chained-on-returned-object"], "nt": True, "raw": True},
             {"stmts": inlist, "labels": ["feat:index_of-object-in-list"], "nt": True, "raw": True},
             {"stmts": esc, "labels": ["feat:self-escapes-from-constructor"], "nt": True, "raw": True},
             {"stmts": coll, "labels": ["feat:field-named-like-a-global"], "nt": True, "raw": True},
